@@ -40,12 +40,33 @@ REACH = {
                   9: ['pAC', 'uRELRQ', 'pRELRQ'], 11: ['pAC', 'uRELRQ', 'pRELRQ', 'uRELRP'],
                   13: ['pAC', 'uABORT'], 1: ['pRJ']},
 }
+# further real histories into the same states: what the provider holds (current primitive, DIMSE
+# decoder with a half-received message, timer) differs, the cell's prescribed effects do not
+REACH_ALT = {
+    'acceptor': {
+        3: [['pRQv3']],
+        6: [['pRQ', 'uAC', 'pDATA', 'uDATA'], ['pRQ', 'uAC', 'pPART'], ['pRQvFFFF', 'uAC']],
+        7: [['pRQ', 'uAC', 'pPART', 'uRELRQ'], ['pRQ', 'uAC', 'pDATA', 'uDATA', 'uRELRQ']],
+        8: [['pRQ', 'uAC', 'pDATA', 'pRELRQ'], ['pRQ', 'uAC', 'pPART', 'pRELRQ']],
+        10: [['pRQ', 'uAC', 'pPART', 'uRELRQ', 'pRELRQ']],
+        13: [['pUNK'], ['pDATA'], ['pRQ', 'uAC', 'pUNK'], ['pRQ', 'uAC', 'uABORT'],
+             ['pRQ', 'uAC', 'pRELRQ', 'uRELRP'], ['pRQ', 'pRQ']],
+    },
+    'requestor': {
+        6: [['pAC', 'uDATA', 'pDATA'], ['pAC', 'pPART'], ['pACv8001']],
+        7: [['pAC', 'pPART', 'uRELRQ'], ['pAC', 'uDATA', 'uRELRQ']],
+        8: [['pAC', 'pPART', 'pRELRQ']],
+        9: [['pAC', 'pPART', 'uRELRQ', 'pRELRQ']],
+        13: [['pUNK'], ['pAC', 'pUNK'], ['pAC', 'pRELRQ', 'uRELRP'], ['pAC', 'pAC']],
+    },
+}
 FRESH_IDLE = 'fresh'   # requestor before its A-ASSOCIATE request: Sta1 without any socket
 
 EVENT_PRIMS = {
-    1: ['uRQ'], 2: ['uRQ'], 3: ['pAC'], 4: ['pRJ'], 5: [None], 6: ['pRQ'], 7: ['uAC'], 8: ['uRJ'],
+    1: ['uRQ'], 2: ['uRQ'], 3: ['pAC', 'pACv8001'], 4: ['pRJ', 'pRJt'], 5: [None],
+    6: ['pRQ', 'pRQv3', 'pRQvFFFF'], 7: ['uAC'], 8: ['uRJ'],
     9: ['uDATA'], 10: ['pDATA', 'pPART'], 11: ['uRELRQ'], 12: ['pRELRQ'], 13: ['pRELRP'],
-    14: ['uRELRP'], 15: ['uABORT'], 16: ['pABORT'], 17: [None, 'pDATA', 'pRQ'],
+    14: ['uRELRP'], 15: ['uABORT'], 16: ['pABORT', 'pABORTu'], 17: [None, 'pDATA', 'pRQ'],
     18: [None, 'pDATA', 'pRQ'], 19: [None, 'pDATA', 'pRQ'],
 }
 LOOP_STIMULUS = {3: 'pAC', 4: 'pRJ', 6: 'pRQ', 10: 'pDATA', 12: 'pRELRQ', 13: 'pRELRP', 16: 'pABORT',
@@ -74,6 +95,13 @@ def run_shard(spec, tier, seed):
                     and (evt, state) in refmodel.TABLE:
                 run_cell(res, {'role': spec['role'], 'state': state, 'event': evt,
                                'variant': LOOP_STIMULUS[evt], 'mode': 'loop'})
+        for k, route in enumerate(REACH_ALT[spec['role']].get(state, [])):
+            half = 'pPART' in route
+            for evt in range(1, 20):
+                # with a half-received message waiting, the next P-DATA-TF is its remainder
+                for variant in (['pREST'] if (evt == 10 and half) else EVENT_PRIMS[evt]):
+                    run_cell(res, {'role': spec['role'], 'state': state, 'event': evt,
+                                   'variant': variant, 'mode': 'direct', 'route': k})
         if state == 1:
             for evt in range(1, 20):
                 for variant in EVENT_PRIMS[evt]:
@@ -100,9 +128,18 @@ def library_primitive(sym):
     return libmap.PDU_CLASSES[raw[0]].decode(raw), None
 
 
-def reach(role, state, fresh=False):
+def reach(role, state, fresh=False, route=None):
     """-> (sim at a quiescent point in `state`, forced?)"""
     forced = False
+    if route is not None:
+        hist = REACH_ALT[role][state][route]
+        script, _ = c05.build_script(role, hist)
+        sim = simnet.Sim(role, script)
+        sim.run()
+        if sim.outcome != 'end-of-script' or sim.state() + 1 != state:
+            raise RuntimeError('route %r ended with %s %s in Sta%d' % (hist, sim.outcome, sim.error,
+                                                                       sim.state() + 1))
+        return sim, False
     if fresh:
         sim = simnet.Sim('requestor', [])
         sim.run()
@@ -141,10 +178,13 @@ def run_cell(res, case):
     role, state, evt = case['role'], case['state'], case['event']
     variant, mode = case['variant'], case['mode']
     res.evaluations += 1
-    res.distinct.add('%s/Sta%d/Evt%d/%s/%s%s' % (role, state, evt, variant, mode,
-                                                  '/fresh' if case.get('fresh') else ''))
+    res.distinct.add('%s/Sta%d/Evt%d/%s/%s%s%s' % (role, state, evt, variant, mode,
+                                                    '/fresh' if case.get('fresh') else '',
+                                                    '/route%d' % case['route'] if 'route' in case else ''))
+    if 'route' in case:
+        res.count('oracle.cell-after-other-history')
     try:
-        sim, forced = reach(role, state, case.get('fresh', False))
+        sim, forced = reach(role, state, case.get('fresh', False), case.get('route'))
     except RuntimeError as exc:
         res.violation('state-unreachable:Sta%d' % state, 'C04.reach', str(exc), case)
         return
@@ -178,6 +218,8 @@ def run_cell(res, case):
            'timer_ops': sim.timer_ops[base['timer_ops']:], 'timer': sim.timer_running,
            'state': sm.current_state + 1}
     where = '%s Sta%d Evt%d prim=%s%s' % (role, state, evt, variant, ' (state forced)' if forced else '')
+    if 'route' in case:
+        where += ' reached by %s' % '.'.join(REACH_ALT[role][state][case['route']])
     if len(res.samples) < 6 and action:
         res.sample({'cell': where, 'action': action, 'wire': [w[0] for w in got['wire']],
                     'indications': [i[0] for i in got['ind']], 'timer_ops': got['timer_ops'],
@@ -228,13 +270,13 @@ def run_cell(res, case):
     # ---- indication
     want_ind = []
     if ind == 'P-DATA':
-        want_ind = [('DIMSE',)] if variant == 'pDATA' else []
+        want_ind = [('DIMSE',)] if variant in ('pDATA', 'pREST') else []
     elif ind == 'A-ABORT:received':
-        want_ind = [('A-ABORT',) + F.PEER_INFO['pABORT']['abort']]
+        want_ind = [('A-ABORT',) + F.PEER_INFO[variant if variant in F.PEER_INFO else 'pABORT']['abort']]
     elif ind == 'A-P-ABORT':
         want_ind = [('A-ABORT', 'any')]
     elif ind == 'A-ASSOCIATE-RJ':
-        want_ind = [('A-ASSOCIATE-RJ',) + F.PEER_INFO['pRJ']['rj']]
+        want_ind = [('A-ASSOCIATE-RJ',) + F.PEER_INFO[variant if variant in F.PEER_INFO else 'pRJ']['rj']]
     elif ind is not None:
         want_ind = [(ind,)]
     if len(got['ind']) != len(want_ind) or not all(
